@@ -62,6 +62,7 @@ def instrs(weights, pol=None, ipol=None, trees=None, delays=delays):
         "fail": st.tuples(st.just("fail"), small, excs).map(list),
         "cb": st.tuples(st.just("cb"), small, st.booleans()).map(list),
         "cbjoin": st.tuples(st.just("cbjoin"), small, st.booleans()).map(list),
+        "cbintr": st.tuples(st.just("cbintr"), small, small, vals).map(list),
         "spawn": st.tuples(st.just("spawn"), small).map(list),
         "interrupt": st.tuples(st.just("interrupt"), small, vals).map(list),
         "neg_timeout": st.tuples(st.just("neg_timeout"), st.sampled_from([-1, -0.5, -0.1, -3])).map(list),
